@@ -2,12 +2,22 @@
    Observed floats arrive as exact rationals (a double is a dyadic rational), so
    every comparison below is exact rational arithmetic; the tolerances are the
    stated rounding allowance of the check (see trusted_base in harness/C13.py). *)
-From Coq Require Import List Bool Arith ZArith QArith Qcanon String.
+From Coq Require Import List Bool Arith ZArith QArith Qcanon String Uint63.
 From AL Require Import Base.CaseLib C13.Model C13.Spec.
 Import ListNotations.
 Open Scope Qc_scope.
 
 (* ------------------------------------------------------------------ helpers *)
+(* exact value of a double: (-1)^neg * m * 2^e with the mantissa as a primitive integer
+   (only a cheaper literal syntax for the generated case files; qc is the general form) *)
+Definition fq (neg : bool) (m : int) (e : Z) : Qc :=
+  let z := Uint63.to_Z m in
+  let z := if neg then Z.opp z else z in
+  match e with
+  | Zneg p => Q2Qc (z # (2 ^ p))
+  | _ => Q2Qc (inject_Z (z * 2 ^ e))
+  end.
+
 Definition near (tol a b : Qc) : bool := Qc_leb (a - b) tol && Qc_leb (b - a) tol.
 Definition ctol : Qc := qc 1 1000000000.          (* 1e-9: contracts evaluated by the library *)
 Definition ctol_sampled : Qc := qc 1 100000.      (* 1e-5: gammatone.sampled first section, see harness *)
@@ -77,7 +87,7 @@ Definition shape (s : strat) : nat * nat :=
 
 (* p1 = cutoff / freq, p2 = bandwidth (0 when unused); kind = type name of the returned object;
    gdc gny gat = abs(freq_response) at 0, pi and at the cut-off / centre frequency;
-   grid = abs(freq_response) on 64 equally spaced frequencies of [0, pi];
+   grid = abs(freq_response) on 64 equally spaced frequencies of [0, pi] (pole and z strategies only);
    gres = abs(freq_response) at the resonant frequency of the freq_* resonators, when it exists *)
 Record ccase := CC { c_s : strat; c_p1 : Qc; c_p2 : Qc; c_kind : string;
                      c_num : list Qc; c_den : list Qc;
@@ -94,10 +104,13 @@ Definition den2 c := nth 2 (c_den c) 0.
 Definition corr_contract (c : ccase) : bool :=
   String.eqb (c_kind c) "ZFilter" &&
   (List.length (c_num c) <=? fst (shape (c_s c)))%nat && (List.length (c_den c) <=? snd (shape (c_s c)))%nat &&
-  Qc_eqb (nth 0 (c_den c) 0) 1 && (List.length (c_grid c) =? 64)%nat &&
+  Qc_eqb (nth 0 (c_den c) 0) 1 &&
   match c_s c with
-  | LPz | LPz_exp => Qc_eqb (num0 c) (num1 c)
-  | HPz | HPz_exp => Qc_eqb (num0 c) (- num1 c)
+  | LPpole | HPpole => (List.length (c_grid c) =? 64)%nat
+  | LPz => (List.length (c_grid c) =? 64)%nat && Qc_eqb (num0 c) (num1 c)
+  | HPz => (List.length (c_grid c) =? 64)%nat && Qc_eqb (num0 c) (- num1 c)
+  | LPz_exp => Qc_eqb (num0 c) (num1 c)
+  | HPz_exp => Qc_eqb (num0 c) (- num1 c)
   | RSz_exp | RSfreq_z_exp => Qc_eqb (num1 c) 0 && Qc_eqb (num0 c) (- num2 c)
   | _ => true
   end.
